@@ -481,8 +481,57 @@ def rule_tag_identity(model):
     return r
 
 
+# what the EPFS scanner may claim as a tag, at most: %( name [blanks
+# arguments] ) suffix -- arguments never contain a ")" or an unbalanced
+# quote outside / inside a "..." value; the suffix is a printf-style
+# conversion (width[.precision]letter) or one of the block markers [ ] !
+EPFS_AT_MOST = (r'%\([a-zA-Z0-9_/.\-]+([\x00- ]+([^)"]|"[^"]*")*)?\)'
+                r'([0-9]*[.]?[0-9]*[a-zA-Z]|[\]\[!])')
+
+
+def rule_epfs_upper(model):
+    r = RuleResult('C01.R6', 'the EPFS tag recogniser claims only text of '
+                   'the form %(name[ arguments])suffix with balanced quotes, '
+                   'no ")" outside quotes and a printf-style or block-marker '
+                   'suffix: everything else stays literal text')
+    import re
+    tg = model.func('DT_String', 'String.tagre')
+    pat = flags = None
+    call = None
+    for c in own_nodes(tg.node):
+        if isinstance(c, ast.Call) and norm(c.func) == 're.compile':
+            ok, pv = model.fold(c.args[0], tg)
+            if ok:
+                pat, call = pv, c
+            flags = 0
+            for a in c.args[1:] + [k.value for k in c.keywords]:
+                for x in ast.walk(a):
+                    if isinstance(x, ast.Attribute) and x.attr.isupper() \
+                            and hasattr(re, x.attr):
+                        flags |= int(getattr(re, x.attr))
+    if pat is None:
+        raise AnalysisError('String.tagre pattern not found')
+    try:
+        inc, wit = regexa.included(pat, EPFS_AT_MOST, flags, 0)
+    except regexa.Unsupported as e:
+        raise AnalysisError(f'C01.R6: {e}')
+    r.instance(tg.where, repr(pat)[:120], 'within the tag grammar' if inc
+               else f'also claims {wit!r}')
+    if not inc:
+        r.finding(tg.where, 'EPFS tag language (upper bound)', 'the EPFS '
+                  f'tag pattern also matches {wit!r}, which is not a '
+                  'well-formed tag: near-tag literal text is claimed by '
+                  'the scanner (and cut at the wrong place or rejected) '
+                  'instead of being reproduced', node=call, ctx=tg)
+    # control: a pattern that ignores quotes must be reported
+    ctl, _ = regexa.included(r'%\([a-z]+( .*)?\)[a-z]', EPFS_AT_MOST,
+                             re.S, 0)
+    r.control('control: quote-blind pattern exceeds the grammar', not ctl)
+    return r
+
+
 RULES = [rule_eol, rule_who_skips, rule_provenance, rule_prefix_widths,
-         rule_tag_identity]
+         rule_tag_identity, rule_epfs_upper]
 EXPLANATION = (
     'Regex language inclusion of the line-end pattern in [ \\t]*\\n; '
     'who-may-call query for skip_eol with origin pairing of its argument; '
